@@ -2,6 +2,7 @@
 client and id.  E1 with an ack ledger; call() under E2 (asyncio) and E3
 (threads) with all orders of {ACK, timeout, disconnect}."""
 from .. import common, e1
+from ..introspect import callbacks_of
 from ..worlds import ServerWorld
 
 NSS = ['/', '/x']
@@ -233,12 +234,13 @@ class Model:
                 if sid is None:
                     st.append(None)
                     continue
-                real = m.callbacks.get(sid, {})
+                real = (getattr(m, 'callbacks', None) or {}).get(sid, {})
                 st.append((w.emitted.get((s, ns), 0),
                            tuple(sorted(w.out.get((s, ns), {}))),
                            tuple(sorted(repr(k) for k in real))))
         live = set(w.conn.values())
-        stale = sorted(w.namer.norm(k) for k in m.callbacks if k not in live)
+        stale = sorted(w.namer.norm(k) for k in callbacks_of(m)
+                       if k not in live and callbacks_of(m)[k])
         return (tuple(st), tuple(stale), w.refused,
                 tuple(sorted((k, tuple(sorted(v)))
                              for k, v in w.used.items()
@@ -248,7 +250,7 @@ class Model:
         # ledger vs manager: outstanding ids per live sid
         m = w.sio.manager
         for (s, ns), sid in w.conn.items():
-            real = sorted(k for k in m.callbacks.get(sid, {}) if k != 0)
+            real = sorted(callbacks_of(m).get(sid, {}))
             want = sorted(w.out.get((s, ns), {}))
             if real != want:
                 self._bad(w, 'ledger', f'slot {s} {ns}: manager has '
